@@ -1,6 +1,147 @@
-"""Span-markup balance of the hand-written <span> / </span> text of the DFXP and SAMI writers
-(shared by C03, C07, C11); proved with a loop invariant for every node sequence."""
+"""Span-markup balance of the hand-written <span> / </span> text of the DFXP writers (shared by C03,
+C07, C11); proved with a loop invariant for EVERY node sequence.
+
+The text being built is abstracted to what matters here: a `Markup` value counts the '<span' and
+'</span>' it contains (assumed contract A: escaped text and escaped attribute values contain no '<',
+validated exhaustively by C03's escape_contracts).  Nodes are symbolic heap objects."""
+import z3
+
+from pycaption.base import CaptionNode, Caption
+from pycaption.dfxp.base import DFXPWriter, RegionCreator
+from pycaption.dfxp.extras import LegacyDFXPWriter
+from pyvc import heap
+from pyvc.heap import SymList, SymRef, declare, loop_rule, SEQ, INT, heap_array
+from pyvc.interp import SymObject
+from pyvc.sym import cur, mkint, zint, Inapplicable
+
+declare(CaptionNode, type_="int", start="bool", content="id", layout_info="bool")
+declare(RegionCreator)
+declare(DFXPWriter, open_span="bool", write_inline_positioning="bool", region_creator="ref:RegionCreator")
+declare(LegacyDFXPWriter, open_span="bool")
+TEXT, STYLE, BREAK = CaptionNode.TEXT, CaptionNode.STYLE, CaptionNode.BREAK
+
+
+class Markup(SymObject):
+    """a piece of output text known by the number of '<span' and '</span>' it contains"""
+
+    def __init__(self, opens=0, closes=0, nonempty=True):
+        self.opens, self.closes, self.nonempty = opens, closes, nonempty
+
+    @staticmethod
+    def of(x):
+        if isinstance(x, Markup):
+            return x
+        if isinstance(x, str):
+            return Markup(x.count("<span"), x.count("</span>"), bool(x))
+        raise Inapplicable(f"markup of {type(x).__name__}")
+
+    def __add__(self, o):
+        o = Markup.of(o)
+        return Markup(self.opens + o.opens, self.closes + o.closes, self.nonempty or o.nonempty)
+
+    def __radd__(self, o):
+        return Markup.of(o) + self
+
+    def rstrip(self, *a):
+        return self
+
+    def sym_getattr(self, interp, name):
+        if name == "rstrip":
+            return self.rstrip
+        raise Inapplicable(f"str.{name} on abstract markup")
+
+    def sym_format(self, spec):
+        return self
+
+    def __bool__(self):
+        if isinstance(self.nonempty, bool):
+            return self.nonempty
+        return cur().branch(self.nonempty)
+
+    def depth(self):
+        return zint(self.opens) - zint(self.closes)
+
+
+def text_piece(interp, fn, args, kw):
+    return Markup(0, 0, True)              # escaped text / attribute value: no tags inside (A)
+
+
+def style_dict(interp, fn, args, kw):
+    """_recreate_style under contract: some attribute dict (empty or not) with tag-free keys"""
+    k = cur().choose(3, "style")
+    return {} if k == 0 else ({"tts:fontStyle": "italic"} if k == 1 else {"style": "c1", "tts:color": "red"})
+
+
+def positioning(interp, fn, args, kw):
+    return "r1", {"tts:origin": "10% 10%"}
+
+
+def setup(interp):
+    heap.install(interp)
+    import builtins
+    old_truth = interp.truth
+    interp.truth = lambda v: bool(v) if isinstance(v, Markup) else old_truth(v)
+
+
+def span_balance(W):
+    qual = f"{W.__module__}:{W.__qualname__}"
+
+    def contract(c):
+        """_recreate_text for any node list, entered with no span open: the text contains as many
+        '</span>' as '<span' - plus exactly one unclosed '<span' iff open_span is left set; and for a flat
+        balanced node list (style nodes alternate start, end, ...) open_span is false afterwards"""
+        p = cur()
+        nodes = SymList(z3.Const("nodes", SEQ), CaptionNode)
+        n = z3.Length(nodes.t)
+        TY, STARTS = heap_array(p, CaptionNode, "type_"), heap_array(p, CaptionNode, "start")
+        w = SymRef(W, z3.Int("writer"))
+        OS0 = heap_array(p, W, "open_span")
+        p.assume(z3.Not(OS0[w.ref]))
+        cap = c.new(Caption, start=0, end=1, nodes=nodes, style={}, layout_info=None)
+        # FLAT(k): 0 outside a style pair, 1 inside, 2 = the style nodes do not alternate start / end
+        FLAT = z3.Function("FLAT", INT, INT)
+        p.assume(FLAT(0) == 0)
+
+        def fdef(k):
+            x = nodes.t[k]
+            st = z3.If(TY[x] != STYLE, FLAT(k),
+                       z3.If(STARTS[x], z3.If(FLAT(k) == 0, 1, 2), z3.If(FLAT(k) == 1, 0, 2)))
+            return FLAT(k + 1) == z3.If(FLAT(k) == 2, 2, st)
+
+        def inv(S):
+            S.p.assume(fdef(S.i))
+            line = Markup.of(S.local("line"))
+            os_ = z3.Select(S.field(W, "open_span"), w.ref)
+            return [("unclosed_spans_equal_the_open_span_flag", line.depth() == z3.If(os_, 1, 0)),
+                    ("span_open_only_inside_a_style_pair", z3.Implies(z3.And(os_, FLAT(S.i) != 2), FLAT(S.i) == 1))]
+
+        def havoc_line(p_, name):
+            o, cl = p_.fresh_int("opens"), p_.fresh_int("closes")
+            p_.assume(z3.And(o >= 0, cl >= 0))
+            return Markup(mkint(o), mkint(cl), True)
+        c.interp.loop_hooks[(qual + "._recreate_text", 1)] = loop_rule(
+            "text.loop", inv, locals_={"line": ("custom", havoc_line)}, fields=[(W, "open_span")])
+        c.interp.contracts.update({
+            qual + "._encode": text_piece,
+            "pycaption.dfxp.base:_escape_attribute": text_piece,
+            "pycaption.dfxp.base:_recreate_style": style_dict,
+            qual + "._recreate_style": style_dict,
+            "pycaption.dfxp.base:RegionCreator.get_positioning_info": positioning,
+            "xml.sax.saxutils:escape": text_piece,
+        })
+        import xml.sax.saxutils as sx
+        c.interp.overrides[sx.escape] = lambda *a, **k: Markup(0, 0, True)
+        args = (w, cap, None, None, None) if W is DFXPWriter else (w, cap, None)
+        r = c.call(W._recreate_text, *args, compare=False)
+        r = Markup.of(r)
+        os_end = z3.Select(heap_array(p, W, "open_span"), w.ref)
+        c.ensure("as_many_closing_as_opening_span_tags_up_to_the_open_flag", r.depth() == z3.If(os_end, 1, 0))
+        c.ensure("flat_balanced_style_nodes_leave_no_span_open", z3.Implies(FLAT(n) == 0, z3.Not(os_end)))
+    return contract
 
 
 def prove_span_balance(ctx):
-    pass
+    ctx.prove("dfxp.DFXPWriter._recreate_text/span_balance", span_balance(DFXPWriter),
+              functions=[DFXPWriter._recreate_text, DFXPWriter._recreate_span], setup_interp=setup, crosscheck=False)
+    ctx.prove("dfxp.LegacyDFXPWriter._recreate_text/span_balance", span_balance(LegacyDFXPWriter),
+              functions=[LegacyDFXPWriter._recreate_text, LegacyDFXPWriter._recreate_span], setup_interp=setup, crosscheck=False)
